@@ -305,17 +305,27 @@ def build_and_audit(prop, mod, ctx, evidence):
         if m:
             broken.append(f"forbidden construct {m.group(0).strip()!r} in {os.path.relpath(path, VERIF)}")
             proofs_ok = False
-    tie = getattr(mod, "SECOND_TIE", None)
+    ties = getattr(mod, "SECOND_TIE", None)
+    ties = [ties] if isinstance(ties, dict) else list(ties or [])
     ctx.second_tie = None
-    if tie:
-        status, tie_thms = second_tie(prop, tie, evidence)
-        ctx.second_tie = status
+    statuses = []
+    for n_tie, tie in enumerate(ties):
+        ev_ = {}
+        status, tie_thms = second_tie(prop + (f"_{n_tie}" if n_tie else ""), tie, ev_)
+        statuses.append(status)
+        if n_tie == 0:
+            evidence.update(ev_)
+        else:
+            evidence.setdefault("second_ties_more", []).append(ev_)
         if status == "in force":
             obligations += len(tie_thms)
             discharged += len(tie_thms)
             thms = thms + tie_thms
         else:
             ctx.boost = True
+    if statuses:
+        bad_ = [s_ for s_ in statuses if s_ != "in force"]
+        ctx.second_tie = "in force" if not bad_ else " || ".join(bad_)
     evidence["obligations"] = obligations
     evidence["discharged"] = discharged if proofs_ok else min(discharged, max(obligations - 1, 0))
     evidence["theorems"] = thms
